@@ -6,11 +6,12 @@ mod nodeh;
 mod parse;
 mod replic;
 mod resp;
+mod subs;
 mod topo;
 
 use vlib::Check;
 
 fn main() {
-    let checks: Vec<&dyn Check> = vec![&topo::C24, &topo::C13, &topo::C14, &breaker::C26, &parse::C21, &clusterchk::C07, &clusterchk::C08, &replic::C12, &resp::C22];
+    let checks: Vec<&dyn Check> = vec![&topo::C24, &topo::C13, &topo::C14, &breaker::C26, &parse::C21, &clusterchk::C07, &clusterchk::C08, &replic::C12, &resp::C22, &subs::C09];
     vlib::main_entry(&checks)
 }
